@@ -8,6 +8,7 @@ pub mod c04;
 pub mod c06;
 pub mod c07;
 pub mod c08;
+pub mod c09;
 pub mod c10;
 pub mod c12;
 pub mod c13;
@@ -23,6 +24,7 @@ pub fn dispatch(prop: &str, cfg: &Cfg) -> Option<(Log, Meta)> {
     "C06" => c06::run(cfg),
     "C07" => c07::run(cfg),
     "C08" => c08::run(cfg),
+    "C09" => c09::run(cfg),
     "C12" => c12::run(cfg),
     "C13" => c13::run(cfg),
     "C14" => c14::run(cfg),
